@@ -30,8 +30,9 @@ claim('C02', 'proof',
 claim('C06', 'proof',
       'total case analysis of the real validators (check_input, check_input_tuples, check_input_classic, check_tuple_size, make_error_input, check_y_valid_values_for_pairs) over an array '
       'descriptor with symbolic rank and dims: every path ends in a formed array of the documented rank / tuple size / minimum size, in ValueError, or in PreprocessorError when a preprocessor was consulted; '
-      'call well-formedness of every scikit-learn call against the installed signature. Relative to the assumed scikit-learn validator contracts (NaN/inf/dtype/length). '
-      'The enumerated malformation grammar of the property is run against the real methods as a bounded stand-in.',
+      'call well-formedness of every scikit-learn call against the installed signature; the formed data is FLOATING POINT for signed / unsigned integer and boolean arguments (F24: integer data used to reach the learners unconverted). '
+      'Relative to the assumed scikit-learn validator contracts (NaN/inf/dtype/length). '
+      'The enumerated malformation grammar of the property is run against the real methods as a bounded stand-in, and so is "the same numbers in another container / dtype / memory layout give the same results" (fit and queries of all 17 estimators).',
       'trusted: npvc encoder; z3; assumed contracts of check_array / check_X_y (listed in evidence); user preprocessors return arrays of rank <= 3; known finding F15 (0-d data with labels -> TypeError from scikit-learn)',
       'total case analysis over input descriptors; call well-formedness; bounded grammar on the real methods',
       ['NaN/inf, dtype and length checks are scikit-learn check_array/check_X_y behaviour (assumed contract)'])
@@ -70,8 +71,9 @@ claim('C07', 'other',
       'proved on the real constraints.py: Constraints._pairs at the VALUE level -- every returned pair joins two distinct points whose labels are known, equal for positive pairs and different for negative pairs '
       '(element invariant of the set `ab`: an obligation for every element the body adds, carried through np.array(list(ab)), .T and known_label_idx[...] by the np.where / fancy-indexing axioms, for every label vector and every n_constraints); '
       'shapes, at-most-n_constraints, same_length, chunk vector shape, triplet shape, call well-formedness, all randomness drawn from the given random_state, and -- through the ghost "value frame" of index arrays -- '
-      'that every returned index refers to the CALLER\'s array (the clause F3 violated). "No repeated ordered pair", chunk disjointness / size and the k-NN characterisation are decided by the bounded-exhaustive stand-in '
-      '(all label vectors of length <= 6/7 over {-1,0,1,2}).',
+      'that every returned index refers to the CALLER\'s array (the clause F3 violated); Constraints.__init__ holds the labels as SIGNED integers whatever the argument\'s dtype (unsigned labels would turn the -1 markers into 255); '
+      'the index vector through which generate_knntriplets maps its triplets back ranges over points with label >= 0 only. "No repeated ordered pair", chunk disjointness / size and the k-NN characterisation are decided by the bounded-exhaustive stand-in '
+      '(all label vectors of length <= 6/7 over {-1,0,1,2}; one re-coded representation per vector: other negative codes, uint8/uint16/int8/int16/int32/float/list labels).',
       'trusted: npvc encoder; z3; libspec of np.where (sorted true positions) / fancy indexing / randint / choice (returns an entry of its argument) / np.unique / NearestNeighbors; set-valued invariants of chunks are NOT proved (bounded only)',
       'list element invariant + index-frame symbolic execution; ' + BOUNDED, ['rejection sampling finds at least one pair when one exists (ghost hypothesis of the property)'])
 claim('C08', 'proof',
